@@ -101,7 +101,9 @@ ObsClauses(e) ==
        /\ Flag(e, "C10.NoEarlyRelease", \A j \in 1..Len(p.suspending) : \A m \in (p.suspending[j].idx + 1)..Len(p.suspending[j].ops) :
                   ObsOst(e, p.suspending[j].ops[m]) = "suspending", <<k, p.suspending>>)
        /\ Flag(e, "C10.Keeps", \A j \in 1..Len(p.suspending) : LET c == p.suspending[j] IN
-                  (c.cid \in 1..Len(s.ctr) /\ s.ctr[c.cid].ram > 0) => (c.cpu = s.ctr[c.cid].cpu /\ c.ram = s.ctr[c.cid].ram /\ c.idx = s.ctr[c.cid].idx), k)
+                  (c.cid \in 1..Len(s.ctr) /\ s.ctr[c.cid].ram > 0) =>
+                     /\ c.cpu = s.ctr[c.cid].cpu /\ c.ram = s.ctr[c.cid].ram                                  \* keeps its whole allocation
+                     /\ (c.cid \in Range(s.pools[k].suspending) => c.idx = s.ctr[c.cid].idx), k)              \* and makes no progress while writing out
   \* results: success <=> all completed; failure names an error and leaves completed prefix + failed suffix
   /\ Flag(e, "C09.ResultShape", \A j \in 1..Len(o.results) : LET r == o.results[j] IN
         IF r.err = "" THEN \A m \in 1..Len(r.ops) : ObsOst(e, r.ops[m]) = "completed"
@@ -159,15 +161,19 @@ ObsSusp(p) == [j \in 1..Len(p.suspending) |-> [cid |-> p.suspending[j].cid, slef
 PredResults(st) == [j \in 1..Len(st.results) |-> [cid |-> st.results[j].cid, err |-> st.results[j].err, pool |-> st.results[j].pool]]
 ObsResults(o) == [j \in 1..Len(o.results) |-> [cid |-> o.results[j].cid, err |-> o.results[j].err, pool |-> o.results[j].pool]]
 
+\* the ORDER of containers inside a pool's lists and of the results of one tick is promised by no property: compared as sets
+\* (a pure order difference is reported as DRIFT, informational)
+SetOf(q) == {q[i] : i \in 1..Len(q)}
+SameSet(a, b) == Len(a) = Len(b) /\ SetOf(a) = SetOf(b)
 ConfOK(e, pred) ==
   /\ pred.ost = e.obs.ost
   /\ \A k \in 1..cfg.np : LET op == e.obs.pools[k] IN
        /\ pred.pools[k].acpu = op.acpu /\ pred.pools[k].aram = op.aram /\ Near(op.aramr)
        /\ pred.pools[k].cons = op.cons /\ Near(op.consr)
-       /\ PredActive(pred, k) = ObsActive(op) /\ PredCan(pred, k) = ObsCan(op)
-       /\ PredSusp(pred, k) = ObsSusp(op) /\ pred.pools[k].suspended = op.suspended
+       /\ SameSet(PredActive(pred, k), ObsActive(op)) /\ SameSet(PredCan(pred, k), ObsCan(op))
+       /\ SameSet(PredSusp(pred, k), ObsSusp(op)) /\ SameSet(pred.pools[k].suspended, op.suspended)
        /\ pred.pools[k].ncomp = op.ncomp
-  /\ PredResults(pred) = ObsResults(e.obs)
+  /\ SameSet(PredResults(pred), ObsResults(e.obs))
 
 ConfClauses(e, pred) ==
   /\ Flag(e, "conf.C02.ost", pred.ost = e.obs.ost, <<"pred", pred.ost, "obs", e.obs.ost>>)
@@ -175,13 +181,15 @@ ConfClauses(e, pred) ==
        /\ Flag(e, "conf.C03.free", pred.pools[k].acpu = op.acpu /\ pred.pools[k].aram = op.aram /\ Near(op.aramr),
                <<k, "pred", pred.pools[k].acpu, pred.pools[k].aram, "obs", op.acpu, op.aram, op.aramr>>)
        /\ Flag(e, "conf.C04.cons", pred.pools[k].cons = op.cons /\ Near(op.consr), <<k, "pred", pred.pools[k].cons, "obs", op.cons, op.consr>>)
-       /\ Flag(e, "conf.C05.ctr", PredActive(pred, k) = ObsActive(op), <<k, "pred", PredActive(pred, k), "obs", ObsActive(op)>>)
+       /\ (IF SameSet(PredActive(pred, k), ObsActive(op)) /\ PredActive(pred, k) # ObsActive(op) THEN PrintT(<<"DRIFT", e.tid, e.t, "order of active containers differs from the model">>) ELSE TRUE)
+       /\ Flag(e, "conf.C05.ctr", SameSet(PredActive(pred, k), ObsActive(op)), <<k, "pred", PredActive(pred, k), "obs", ObsActive(op)>>)
        \* suspendable exactly right after a non-final operator finished (the spec knows the in-operator position)
-       /\ Flag(e, "conf.C10.can", PredCan(pred, k) = ObsCan(op), <<k, "pred", PredCan(pred, k), "obs", ObsCan(op)>>)
-       /\ Flag(e, "conf.C10.lists", PredSusp(pred, k) = ObsSusp(op) /\ pred.pools[k].suspended = op.suspended,
+       /\ Flag(e, "conf.C10.can", SameSet(PredCan(pred, k), ObsCan(op)), <<k, "pred", PredCan(pred, k), "obs", ObsCan(op)>>)
+       /\ Flag(e, "conf.C10.lists", SameSet(PredSusp(pred, k), ObsSusp(op)) /\ SameSet(pred.pools[k].suspended, op.suspended),
                <<k, "pred", PredSusp(pred, k), pred.pools[k].suspended, "obs", ObsSusp(op), op.suspended>>)
        /\ Flag(e, "conf.C09.ncomp", pred.pools[k].ncomp = op.ncomp, <<k, pred.pools[k].ncomp, op.ncomp>>)
-  /\ Flag(e, "conf.C09.results", PredResults(pred) = ObsResults(e.obs), <<"pred", PredResults(pred), "obs", ObsResults(e.obs)>>)
+  /\ (IF SameSet(PredResults(pred), ObsResults(e.obs)) /\ PredResults(pred) # ObsResults(e.obs) THEN PrintT(<<"DRIFT", e.tid, e.t, "order of results differs from the model">>) ELSE TRUE)
+  /\ Flag(e, "conf.C09.results", SameSet(PredResults(pred), ObsResults(e.obs)), <<"pred", PredResults(pred), "obs", ObsResults(e.obs)>>)
 
 \* adopt the observation for everything observable, keep the hidden in-operator position where still meaningful
 Resyncable(e, pred) ==
@@ -262,6 +270,8 @@ ObsExec(e) ==   \* "obs" mode: no prediction; the spec state only carries the la
   /\ AcctClause(e, AcctAfter(e).maxcid)
   /\ acct' = AcctAfter(e)
   /\ s' = [s EXCEPT !.ost = e.obs.ost,
+                    !.pools = [k \in 1..cfg.np |-> [s.pools[k] EXCEPT !.active = ObsCids(e.obs.pools[k].active), !.suspending = ObsCids(e.obs.pools[k].suspending),
+                                                                      !.suspended = e.obs.pools[k].suspended]],
                     !.ctr = [c \in 1..ObsMaxCid(e.obs) |->
                                IF \E x \in LiveObsFull(e.obs) : x.cid = c THEN (CHOOSE x \in LiveObsFull(e.obs) : x.cid = c)
                                ELSE IF c <= Len(s.ctr) THEN s.ctr[c] ELSE [cid |-> c, cpu |-> 0, ram |-> 0, idx |-> 0]]]
